@@ -803,6 +803,13 @@ def main(tier, replay):
             add(record(codec, recipes,
                        chunking=lambda wire, couts, cfinal: sizes_from_cuts(
                            list(range(1024, len(wire), 1024)), len(wire))), 'huge')
+    # incompressible data of several MiB in chunks of decreasing size: the compressor's own
+    # output exceeds any internal block size several times, later blocks are shorter
+    for codec in ('gzip', 'zstd'):
+        sizes_kib = (700, 700, 600, 500, 100) if not thorough else (1200, 900, 700, 600, 500, 100, 3)
+        recipes = [{'k': 'rnd', 'seed': 1000 + j, 'n': kib * 1024 + j} for j, kib in enumerate(sizes_kib)]
+        add(record(codec, recipes, chunking=lambda wire, couts, cfinal: sizes_from_cuts(
+            list(range(65536, len(wire), 65536)), len(wire))), 'huge')
     V.phase('random executions')
 
     # 4. validation by TLC --------------------------------------------------------
